@@ -80,6 +80,10 @@ func (r DIDKeyResolver) ResolveKeyByID(keyID string, metadata *ResolveMetadata, 
 		return nil, err
 	}
 	for _, rel := range relationships {
+		if rel.VerificationMethod == nil {
+			// unresolved (e.g. empty) reference
+			continue
+		}
 		localKeyId := rel.ID.String()
 		if localKeyId == keyID {
 			return rel.PublicKey()
@@ -102,9 +106,12 @@ func (r DIDKeyResolver) baseUrl(doc *did.Document) (baseUrl *string) {
 	for i := range context {
 		ctx := context[i]
 		if reflect.ValueOf(ctx).Kind() == reflect.Map {
-			m := ctx.(map[string]interface{})
-			if val, ok := m["@base"]; ok {
-				valStr := val.(string)
+			m, ok := ctx.(map[string]interface{})
+			if !ok {
+				continue
+			}
+			// @base must be a string, other types are ignored (document is not ours, so it might contain anything)
+			if valStr, ok := m["@base"].(string); ok {
 				baseUrl = &valStr
 				break
 			}
@@ -125,14 +132,18 @@ func (r DIDKeyResolver) ResolveKey(id did.DID, validAt *time.Time, relationType 
 	if err != nil {
 		return "", nil, err
 	}
-	if len(keys) == 0 {
-		return "", nil, ErrKeyNotFound
+	for _, key := range keys {
+		if key.VerificationMethod == nil {
+			// unresolved (e.g. empty) reference
+			continue
+		}
+		publicKey, err := key.PublicKey()
+		if err != nil {
+			return "", nil, err
+		}
+		return key.ID.String(), publicKey, nil
 	}
-	publicKey, err := keys[0].PublicKey()
-	if err != nil {
-		return "", nil, err
-	}
-	return keys[0].ID.String(), publicKey, nil
+	return "", nil, ErrKeyNotFound
 }
 
 func resolveRelationships(doc *did.Document, relationType RelationType) (relationships did.VerificationRelationships, err error) {
